@@ -1107,7 +1107,18 @@ class Sim:
                     return ("value", Adt("std::option::Option", 1, [Adt("std::result::Result", 0, o.fields)]))
             return ("value", UNK)
         if p == "std::option::Option::<T>::take":
+            # `opt.take()` on a known Option held in a local / field: hand out the value, leave None behind
+            r0 = args[0] if args else None
+            if isinstance(r0, Ref) and isinstance(d[0], Adt) and d[0].adt.endswith("Option"):
+                old = d[0]
+                self.write_place(r0.env, {"l": r0.local, "p": list(r0.proj)}, Adt("std::option::Option", 0, []), path)
+                return ("value", old)
             return None
+        if p in ("std::mem::replace", "core::mem::replace") and len(args) == 2 and isinstance(args[0], Ref) \
+                and not isinstance(d[0], (Opq,)) and d[0] is not UNK:
+            old = d[0]
+            self.write_place(args[0].env, {"l": args[0].local, "p": list(args[0].proj)}, args[1], path)
+            return ("value", old)
         if p in ("std::char::from_u32", "core::char::from_u32") or p.endswith("<impl char>::from_u32"):
             n = d[0] if d else UNK
             if isinstance(n, int):
